@@ -39,7 +39,7 @@ Definition lookup_tbl (tbl : list (Z * Z)) (x : F) : F :=
 Definition FOpsG (ln_f exp_f : F -> F) : Ops F := {|
   o_lit := of_bits;
   o_add := fadd; o_sub := fsub; o_mul := fmul; o_div := fdiv; o_fma := ffma;
-  o_neg := fneg; o_max := fmax;
+  o_neg := fneg; o_max := fmax; o_min := fmin; o_abs := fabs;
   o_ln := ln_f; o_exp := exp_f;
   o_lt := flt; o_le := fle; o_eq := feq;
   o_absdiffeq := f_absdiffeq; o_releq := f_releq;
